@@ -60,6 +60,8 @@ theorem ID.le_antisymm {a b : ID} (h1 : a.le b = true) (h2 : b.le a = true) : a 
 /-- the table is strictly descending: earlier LIDs hold greater IDs -/
 def Desc (t : List ID) : Prop := t.Pairwise (fun a b => b.lt a = true)
 
+instance (t : List ID) : Decidable (Desc t) := by unfold Desc; infer_instance
+
 theorem Desc.getElem_lt {t : List ID} (h : Desc t) {i j : Nat} (hi : i < j) (hj : j < t.length) :
     (t[j]).lt (t[i]'(by omega)) = true :=
   (List.pairwise_iff_getElem.mp h) i j (by omega) hj hi
@@ -268,6 +270,8 @@ theorem findLIDsFixed_spec (t : List ID) (hd : Desc t) (hne : 2 ≤ t.length) (i
 
 /-- some stored ID (LID >= 1) is `<= id`: the binary search cannot run off the table -/
 def Covered (t : List ID) (id : ID) : Prop := lessOrEqual t (t.length - 1) id = true
+
+instance (t : List ID) (id : ID) : Decidable (Covered t id) := by unfold Covered; infer_instance
 
 /-- **the loop as written**: correct on every ID list all of whose members are covered ... -/
 theorem findLIDsGo_spec (t : List ID) (hd : Desc t) (hne : 2 ≤ t.length) (ids : List ID)
